@@ -991,6 +991,11 @@ func (r *Runner) ensureStorage() error {
 	if r.Runtrackpos < r.runtrackcount*4 && !r.growTrack() {
 		return ErrBacktrackingStackLimit
 	}
+	if r.Runtrackpos < r.runtrackcount*4 {
+		// the stack limit allowed only part of the growth: the opcodes executed before the
+		// next check may push up to 4*trackcount slots, which still would not fit
+		return ErrBacktrackingStackLimit
+	}
 	return nil
 }
 
